@@ -49,7 +49,7 @@ pub fn tape_target(data: &[u8]) -> Result<(), String> {
     let n = n.min(rest.len());
     let (a, bc) = rest.split_at(n);
     let half = bc.len() / 2;
-    let tapes = Tapes { a: a.to_vec(), b: bc[..half].to_vec(), c: bc[half..].to_vec() };
+    let tapes = Tapes { a: a.to_vec(), b: bc[..half].to_vec(), c: bc[half..].to_vec(), small: false };
     let mut st = Stats::default();
     st.frozen = true;
     for p in [
